@@ -37,14 +37,9 @@ def r1(tree, rep):
         if isinstance(e2, ast.Subscript) and isinstance(e2.value, ast.Name) and e2.value.id == msg and const(e2.slice) == "side":
             return "their"
         return None
-    # evaluate the if/elif/else chain over the three orderings
+    # evaluate the function over the three orderings of the two sides
     outcome = {}
-    top = [s for s in fn.body if isinstance(s, ast.If)]
-    ok = len(top) == 1
-    def effect(body):
-        roles = [dotted(s.value) for s in body if isinstance(s, ast.Assign) and any(is_self_attr(t, "_my_role") for t in s.targets)]
-        raises = any(isinstance(s, ast.Raise) for s in body)
-        return ("raise" if raises and not roles else (roles[0] if len(roles) == 1 and not raises else "?"))
+
     def truth(test, order):
         # order: '<' my<their, '=' equal, '>' my>their
         if not (isinstance(test, ast.Compare) and len(test.ops) == 1):
@@ -56,25 +51,19 @@ def r1(tree, rep):
         rel = order if l == "my" else {"<": ">", ">": "<", "=": "="}[order]
         table = {ast.Gt: rel == ">", ast.Lt: rel == "<", ast.GtE: rel in (">", "="), ast.LtE: rel in ("<", "="), ast.Eq: rel == "=", ast.NotEq: rel != "="}
         return table.get(type(op))
-    if ok:
-        for order in "<=>":
-            node = top[0]
-            res = None
-            while True:
-                t = truth(node.test, order)
-                if t is None:
-                    res = "?"
-                    break
-                if t:
-                    res = effect(node.body)
-                    break
-                if len(node.orelse) == 1 and isinstance(node.orelse[0], ast.If):
-                    node = node.orelse[0]
-                    continue
-                res = effect(node.orelse) if node.orelse else "none"
-                break
-            outcome[order] = res
-    ok = ok and outcome == {">": "LEADER", "<": "FOLLOWER", "=": "raise"}
+    gcr = build(fn, split=True)
+    ok = True
+    for order in "<=>":
+        res = set()
+        for nodes, end in gcr.paths_under(lambda t, order=order: truth(t, order)):
+            roles = [dotted(gcr.stmt[n].value) for n in nodes if isinstance(gcr.stmt[n], ast.Assign)
+                     and any(is_self_attr(t, "_my_role") for t in gcr.stmt[n].targets)]
+            if end == 'raise':
+                res.add("raise" if not roles else "?")
+            else:
+                res.add(roles[-1] if len(roles) == 1 else ("none" if not roles else "?"))
+        outcome[order] = sorted(res)[0] if len(res) == 1 else "?"
+    ok = outcome == {">": "LEADER", "<": "FOLLOWER", "=": "raise"}
     rep.check("C11.R1", "choose_role over my-side >,<,= their-side: LEADER, FOLLOWER, raise (got %s)" % outcome, ok, site(fn, MGR), key="C11.R1:choose_role",
               what="the two sides can compute the same role (or none): outcome table %s" % outcome)
     sp = tree.func(MGR, "Manager", "send_please")
@@ -159,11 +148,13 @@ def r3(tree, prog, rep):
         g = build(f)
         n = g.call_nodes(lambda x: x is c)
         if f.name == "dataReceived":
-            role_t = [t for t in g.nodes(lambda s: isinstance(s, ast.If)) if isinstance(g.stmt[t].test, ast.Compare) and is_self_attr(g.stmt[t].test.left, "_role")
-                      and dotted(g.stmt[t].test.comparators[0]) == "FOLLOWER"]
-            hs_t = [t for t in g.nodes(lambda s: isinstance(s, ast.If)) if isinstance(g.stmt[t].test, ast.Call) and dotted(g.stmt[t].test.func) == "isinstance"
-                    and dotted(g.stmt[t].test.args[1]) == "Handshake"]
-            ok = len(role_t) == 1 and len(hs_t) == 1 and not g.guarded_by(role_t, n, 'T') and not g.guarded_by(hs_t, n, 'T')
+            from ..cfg import cmp_atom, truthy_atom
+            gs = build(f, split=True)
+            ns = gs.call_nodes(lambda x: x is c)
+            follower = cmp_atom(lambda e: is_self_attr(e, "_role"), lambda e: dotted(e) == "FOLLOWER", (ast.Is, ast.Eq), (ast.IsNot, ast.NotEq))
+            is_hs = truthy_atom(lambda e: isinstance(e, ast.Call) and dotted(e.func) == "isinstance" and len(e.args) == 2
+                                and dotted(e.args[1]) == "Handshake")
+            ok = len(ns) == 1 and not gs.only_when(ns, follower, True) and not gs.only_when(ns, is_hs, True)
             rep.check("C11.R3", "in dataReceived only the FOLLOWER sends KCM, and only in reaction to the peer's handshake", ok, site(c, p),
                       key="C11.R3:kcm:follower", what="a leader (or a side that has not seen the handshake) can send KCM from dataReceived")
         elif f.name == "select_and_stop_remaining":
@@ -179,11 +170,11 @@ def r3(tree, prog, rep):
     rep.check("C11.R3", "a connection becomes a candidate only on receiving KCM", bool(rows) and all(r.inp == "got_kcm" for r, o in rows), D.file,
               key="C11.R3:add_candidate-rows")
     dr = tree.func(CON, "DilatedConnectionProtocol", "dataReceived")
-    g = build(dr)
+    g = build(dr, split=True)
     gk = g.call_nodes(lambda c: dotted(c.func) == "self.got_kcm")
-    kt = [t for t in g.nodes(lambda s: isinstance(s, ast.If)) if isinstance(g.stmt[t].test, ast.Call) and dotted(g.stmt[t].test.func) == "isinstance"
-          and dotted(g.stmt[t].test.args[1]) == "KCM"]
-    rep.check("C11.R3", "got_kcm is fired only for a decrypted KCM record", len(gk) == 1 and len(kt) == 1 and not g.guarded_by(kt, gk, 'T'), site(dr, CON),
+    from ..cfg import truthy_atom as _ta
+    is_kcm = _ta(lambda e: isinstance(e, ast.Call) and dotted(e.func) == "isinstance" and len(e.args) == 2 and dotted(e.args[1]) == "KCM")
+    rep.check("C11.R3", "got_kcm is fired only for a decrypted KCM record", len(gk) == 1 and not g.only_when(gk, is_kcm, True), site(dr, CON),
               key="C11.R3:got_kcm")
     sa = tree.func(CTR, "Connector", "select_and_stop_remaining")
     g = build(sa)
@@ -242,9 +233,13 @@ def r5(tree, prog, rep):
     ok = len(rd) == 1 and len(inc) == 1 and len(snd) == 1 and not g.precedes(rd, inc) and g.must_pass(snd)
     if ok:
         c = [c for c in ast.walk(g.stmt[snd[0]]) if isinstance(c, ast.Call) and dotted(c.func) == "self._S.send"][0]
+        from ..astutil import prefixed_int_str_of, resolve_local
         a0 = c.args[0]
-        ok = isinstance(a0, ast.BinOp) and isinstance(a0.op, ast.Mod) and const(a0.left) == "dilate-%d" and isinstance(a0.right, ast.Name) \
-            and a0.right.id == g.stmt[rd[0]].targets[0].id
+        var = g.stmt[rd[0]].targets[0].id
+        if isinstance(a0, ast.Name) and a0.id != var:
+            a0 = resolve_local(fn, a0)
+        iv = prefixed_int_str_of(a0, "dilate-")
+        ok = isinstance(iv, ast.Name) and iv.id == var
     rep.check("C11.R5", "every dilation control message is sent as phase dilate-<n> with n the counter read before its increment", ok, site(fn, MGR),
               key="C11.R5:send_dilation_generation")
     from .C03 import ordered_delivery
@@ -281,13 +276,17 @@ def r6(tree, prog, rep):
     wd = tree.func(CON, "DilatedConnectionProtocol", "when_disconnected")
     rep.check("C11.R6", "when_disconnected hands out the observer's Deferred", bool(calls_named(wd, "self._disconnected.when_fired")), site(wd, CON), key="C11.R6:when_disconnected")
     cl2 = tree.func(MGR, "Manager", "connector_connection_lost")
-    g = build(cl2)
+    g = build(cl2, split=True)
     lead = g.call_nodes(lambda c: dotted(c.func) == "self.connection_lost_leader")
     foll = g.call_nodes(lambda c: dotted(c.func) == "self.connection_lost_follower")
-    rt = [t for t in g.nodes(lambda s: isinstance(s, ast.If)) if isinstance(g.stmt[t].test, ast.Compare) and is_self_attr(g.stmt[t].test.left, "_my_role")
-          and dotted(g.stmt[t].test.comparators[0]) == "LEADER"]
+    from ..cfg import cmp_atom
+    is_leader = cmp_atom(lambda e: is_self_attr(e, "_my_role"), lambda e: dotted(e) == "LEADER", (ast.Is, ast.Eq), (ast.IsNot, ast.NotEq))
+    is_follower = cmp_atom(lambda e: is_self_attr(e, "_my_role"), lambda e: dotted(e) == "FOLLOWER", (ast.Is, ast.Eq), (ast.IsNot, ast.NotEq))
     stop = g.call_nodes(lambda c: dotted(c.func) == "self._stop_using_connection")
-    ok = len(lead) == 1 and len(foll) == 1 and len(rt) == 1 and not g.guarded_by(rt, lead, 'T') and not g.guarded_by(rt, foll, 'F') \
+    # the leader input only when the role is known LEADER (or known not FOLLOWER), and the other way round
+    lead_ok = not g.only_when(lead, is_leader, True) or not g.only_when(lead, is_follower, False)
+    foll_ok = not g.only_when(foll, is_leader, False) or not g.only_when(foll, is_follower, True)
+    ok = len(lead) == 1 and len(foll) == 1 and lead_ok and foll_ok \
         and len(stop) == 1 and g.must_pass(stop) and not g.precedes(stop, lead + foll)
     rep.check("C11.R6", "connector_connection_lost stops using the connection, then feeds the role-specific lost input", ok, site(cl2, MGR),
               key="C11.R6:connector_connection_lost")
